@@ -45,6 +45,14 @@ def run(prop, repo):
                         res['lines'].append((m.group(1), m.group(2), m.group(3)))
                 if 'falsifier finished' not in p.stdout:
                     res['error'] = 'falsifier did not finish (rc=%s): %s' % (p.returncode, (p.stderr or p.stdout)[-300:])
+                    # the process died (abort / signal: e.g. `memory allocation of N bytes failed`, which no catch_unwind sees) inside
+                    # a call announced by a breadcrumb line: that call of the real code, on that input, is a concrete failing execution
+                    crumbs = [l for l in p.stdout.split('\n') if l.startswith('TRYING ')]
+                    last = p.stdout.rstrip('\n').split('\n')[-1] if p.stdout.strip() else ''
+                    if p.returncode not in (0, 1, 101) and crumbs and last == crumbs[-1]:
+                        m = re.match(r'TRYING (.*?) :: (.*)$', crumbs[-1])
+                        why = (p.stderr or '').strip().split('\n')[-1][:200]
+                        res['lines'].append((m.group(1), m.group(2), 'the process was killed inside this call (rc=%s: %s) instead of returning Ok or Err' % (p.returncode, why)))
             except subprocess.TimeoutExpired as te:
                 # discrepancies printed before the time limit are concrete failing executions all the same (stdout is line buffered)
                 out = te.stdout or ''
